@@ -10,6 +10,9 @@
    halmos.solve.solve_low_level) under the deterministic scheduler of harness/sched.py; state and enabled
    threads are compared after/before every step.  Property-level facts are observed on the real objects;
    a race that lets a process run after shutdown returned is reported under a stable key.
+   Two shutdown requests on one executor (halmos: early-exit callbacks + ExecutorRegistry.shutdown_all) are part
+   of the model (threads shut s1/s2): wait=True blocked in _join then wait=False, wait=False twice, wait=False
+   then wait=True are model-checked, replayed and run with real subprocesses.
 3. code -> property: randomised runs of the unmodified module with real subprocesses; solve_low_level
    with a stub solver that outlives its time limit.
 """
@@ -25,16 +28,25 @@ from pathlib import Path
 from harness import exec_tlc as xt
 from harness.common import Check, MachineryError, cleanup, workdir
 
-SAFETY = {"quick": ["MC_Executor_1.cfg", "MC_Executor_2.cfg"],
-          "thorough": ["MC_Executor_1.cfg", "MC_Executor_2.cfg", "MC_Executor_3.cfg"]}
-LIVENESS = {"quick": ["MC_Executor_live_1.cfg", "MC_Executor_live_2q.cfg"],
-            "thorough": ["MC_Executor_live_1.cfg", "MC_Executor_live_2q.cfg", "MC_Executor_live_2.cfg"]}
+# *_2s_*: TWO shutdown callers on one executor (early-exit callbacks + ExecutorRegistry.shutdown_all at exit)
+SAFETY = {"quick": ["MC_Executor_1.cfg", "MC_Executor_2.cfg", "MC_Executor_2s_1.cfg", "MC_Executor_2s_2q.cfg"],
+          "thorough": ["MC_Executor_1.cfg", "MC_Executor_2.cfg", "MC_Executor_3.cfg", "MC_Executor_2s_1.cfg",
+                       "MC_Executor_2s_2q.cfg", "MC_Executor_2s_2.cfg"]}
+LIVENESS = {"quick": ["MC_Executor_live_1.cfg", "MC_Executor_live_2q.cfg", "MC_Executor_2s_live_1.cfg"],
+            "thorough": ["MC_Executor_live_1.cfg", "MC_Executor_live_2q.cfg", "MC_Executor_live_2.cfg",
+                         "MC_Executor_2s_live_1.cfg", "MC_Executor_2s_live.cfg"]}
 MUTANTS = {  # cfg -> text that must appear in TLC's verdict
     "MC_ExecMut_set_result_twice.cfg": "ResultAtMostOnce",
     "MC_ExecMut_result_ignores_exc.cfg": "TimeoutIsUnknown",
     "MC_ExecMut_cancel_skips.cfg": "QuiescentUnlessCbp",
     "MC_ExecMut_lost_result.cfg": "WaitReturns",
     "MC_ExecMut_no_check.cfg": "RejectAfterFlag",
+    # "idempotent shutdown": a second request returns at once when the flag is already set
+    "MC_ExecMut_early_return_safety.cfg": "QuiescentUnlessCbp",
+    "MC_ExecMut_early_return_live.cfg": "ShutdownReturnsUnlessCbp",
+}
+WITNESS = {  # reachability (expected "violation" of a negated goal): the behaviour must exist AND replay cleanly
+    "MC_Executor_2s_witness.cfg": "NoWaitThenNoWaitWitness",
 }
 RACES = {  # cfg -> invariant of the property as stated, violated by the code as written
     "MC_Executor_race_quiescent.cfg": "QuiescentAfterShutdown",
@@ -47,17 +59,21 @@ PREFIX = {  # negative control: order of the code before commit 929919f -> the t
     "MC_Executor_prefix_wait.cfg": "NoToctouWaitWitness",
 }
 BUDGET = {
-    "quick": {"pb": ("MC_ExecSched_pb1.cfg", 400), "sim": [("MC_ExecSched_sim2.cfg", 300)], "solve_every": 4,
+    "quick": {"pb": [("MC_ExecSched_pb1.cfg", 350), ("MC_ExecSched_2s_pb0.cfg", 300)],
+              "sim": [("MC_ExecSched_sim2.cfg", 200), ("MC_ExecSched_2s_sim2.cfg", 150)], "solve_every": 4,
               "real": 24},
-    "thorough": {"pb": ("MC_ExecSched_pb2.cfg", 6000), "sim": [("MC_ExecSched_sim2.cfg", 3000),
-                                                                ("MC_ExecSched_sim3.cfg", 3000)],
+    "thorough": {"pb": [("MC_ExecSched_pb2.cfg", 6000), ("MC_ExecSched_2s_pb1.cfg", 3000)],
+                 "sim": [("MC_ExecSched_sim2.cfg", 3000), ("MC_ExecSched_sim3.cfg", 2000),
+                         ("MC_ExecSched_2s_sim2.cfg", 2000)],
                  "solve_every": 4, "real": 120},
 }
+# patterns of two shutdown requests that must be among the replayed schedules (label -> predicate on a record)
+PATTERN_MIN = 3
 
 # JVM start-up dominates the many small TLC runs: C1 only, few GC/compiler threads (measured 8.7 s -> 1.8 s)
 SMALL_JVM = {"JAVA_TOOL_OPTIONS": "-XX:ParallelGCThreads=2 -XX:TieredStopAtLevel=1 -XX:CICompilerCount=1"}
 BIG_JVM = {"JAVA_TOOL_OPTIONS": "-XX:ParallelGCThreads=4"}
-TRACE_CAP = {"quick": 16, "thorough": 80}  # real-run event logs validated by Trace_Executor.tla (~30k states each)
+TRACE_CAP = {"quick": 8, "thorough": 80}  # real-run event logs validated by Trace_Executor.tla (~30k states each)
 
 WHAT = {
     "submit-shutdown-toctou": (
@@ -86,18 +102,20 @@ def tlc_run(tier: str, seed: int, work: Path):
     jobs, tags = [], []
 
     big = {"MC_Executor_2.cfg", "MC_Executor_3.cfg", "MC_Executor_live_2q.cfg", "MC_Executor_live_2.cfg",
-           "MC_ExecSched_pb2.cfg"}
+           "MC_ExecSched_pb2.cfg", "MC_Executor_2s_2q.cfg", "MC_Executor_2s_2.cfg", "MC_Executor_2s_live.cfg",
+           "MC_ExecSched_2s_pb1.cfg"}
 
     def add(tag, module, cfg, **kw):
         tags.append((tag, cfg))
         jobs.append(dict(module=module, cfg=cfg, env=BIG_JVM if cfg in big else SMALL_JVM, **kw))
 
     for cfg in SAFETY[tier]:
-        add("safety", "Executor", cfg, coverage=True, workers=8 if cfg != "MC_Executor_1.cfg" else 2,
+        add("safety", "Executor", cfg, coverage=True, workers=8 if cfg in big else 2,
             heap="6g" if cfg == "MC_Executor_3.cfg" else None)
     for cfg in LIVENESS[tier]:
-        add("live", "Executor", cfg, workers=4 if cfg != "MC_Executor_live_1.cfg" else 2)
-    add("pb", "ExecSched", b["pb"][0], workers=4)
+        add("live", "Executor", cfg, workers=4 if cfg in big else 2)
+    for cfg, _ in b["pb"]:
+        add("pb", "ExecSched", cfg, workers=4)
     for i, (cfg, n) in enumerate(b["sim"]):
         add("sim", "ExecSched", cfg, workers=1,
             extra=["-simulate", f"num={n}", "-depth", "400", "-seed", str(1 + seed * 7 + i), "-aril", "0"])
@@ -107,11 +125,13 @@ def tlc_run(tier: str, seed: int, work: Path):
         add("race", "Executor", cfg, workers=1, expect_violation=True)
     for cfg in PREFIX:
         add("prefix", "Executor", cfg, workers=1, expect_violation=True)
+    for cfg in WITNESS:
+        add("witness", "Executor", cfg, workers=1, expect_violation=True)
     return tags, xt.run_many(jobs, work, parallel=12 if tier == "quick" else 8)
 
 
 def tlc_account(chk: Check, tags, results) -> dict:
-    out = {"pb": [], "sim": [], "race": {}, "prefix": {}}
+    out = {"pb": [], "sim": [], "race": {}, "prefix": {}, "witness": {}}
     cov_total: dict[str, int] = {}
     tlc_log = []
     for (tag, cfg), r in zip(tags, results):
@@ -148,6 +168,10 @@ def tlc_account(chk: Check, tags, results) -> dict:
                                      f"TLC said {r.violated!r}")
             out["prefix"][cfg] = xt.trace_to_schedule(xt.parse_error_trace(r.stdout))
             chk.count("negative_controls_rejected")
+        elif tag == "witness":
+            if r.violated != WITNESS[cfg]:
+                raise MachineryError(f"{cfg}: the behaviour {WITNESS[cfg]} must be reachable, TLC said {r.violated!r}")
+            out["witness"][cfg] = xt.trace_to_schedule(xt.parse_error_trace(r.stdout))
         else:
             if r.violated:
                 raise MachineryError(f"{cfg}: {r.violated}\n{r.stdout[-2000:]}")
@@ -255,19 +279,49 @@ def prefix_controls(chk: Check, tl: dict):
             chk.cov.setdefault("negative_controls", {})["prefix-schedule:" + cfg] = f"refused by the code: {d.kind}"
         else:
             # the real code followed the pre-fix schedule state by state: the race is back
-            key = "submit-shutdown-toctou:wait" if mode == "wait" else "submit-shutdown-toctou"
+            key = "submit-shutdown-toctou:wait" if mode["s1"] == "wait" else "submit-shutdown-toctou"
             rep["observations"] = res.observations
             chk.violation(key, f"{WHAT[key]} [the code follows the pre-fix schedule {' '.join(xt.labels(steps))}]", rep)
             continue
-        if mode == "wait":
+        if mode["s1"] == "wait":
             continue  # the old _join() is not substituted
-        res = sched.replay_schedule(consts["Jobs"], mode, steps, submit_override=submit_prefix, **kw)
+        try:
+            res = sched.replay_schedule(consts["Jobs"], mode, steps, submit_override=submit_prefix, **kw)
+        except sched.Divergence as d:
+            # not even the old submit() makes the code follow the pre-fix model: something else differs
+            a2 = (d.label or {}).get("a", "?") if isinstance(d.label, dict) else "?"
+            rep["divergence"] = {"kind": d.kind, "detail": d.detail, "step": d.step}
+            chk.violation(f"conformance:{d.kind}:{a2}",
+                          f"spec/Executor.tla and processes.py disagree at step {d.step} of {rep['origin']} "
+                          f"(old submit() substituted): {d.detail}", rep)
+            continue
         keys = {classify(k, j, res.facts) for k, j, _ in res.observations}
         if "submit-shutdown-toctou" not in keys:
             raise MachineryError(f"{cfg}: with the old submit() substituted the harness did not show the toctou "
                                  f"violation (saw {sorted(keys)})")
         chk.count("negative_controls_rejected")
         chk.cov["negative_controls"]["old-submit-follows:" + cfg] = "followed, toctou observed"
+
+
+def two_shutdown_patterns(rec) -> list[str]:
+    """Which of the required orders of two shutdown requests a generated schedule exhibits."""
+    m = rec["init"]["mode"]
+    if not isinstance(m, dict) or "none" in (m.get("s1"), m.get("s2")):
+        return []
+    out = []
+    hist = rec["hist"]
+    final = hist[-1]["s"]["hpc"] if hist else {}
+    for a, b2 in (("s1", "s2"), ("s2", "s1")):
+        if m[a] == "wait" and m[b2] == "nowait":
+            # the joiner is blocked in _join() on a running process when the other caller has not even started
+            if any(st["s"]["hpc"][a] == "joining" and st["s"]["hpc"][b2] == "idle"
+                   and "running" in st["s"]["proc"].values() for st in hist) and final.get(b2) == "returned":
+                out.append("wait-blocked-then-nowait")
+            if any(st["s"]["hpc"][b2] == "returned" and st["s"]["hpc"][a] == "idle" for st in hist):
+                out.append("nowait-then-wait")
+    if m["s1"] == "nowait" and m["s2"] == "nowait" and final.get("s1") == "returned" and final.get("s2") == "returned":
+        out.append("nowait-twice")
+    return out
 
 
 def replay_phase(chk: Check, tier: str, work: Path, tl: dict):
@@ -291,18 +345,38 @@ def replay_phase(chk: Check, tier: str, work: Path, tl: dict):
                 raise MachineryError(f"{cfg}: schedule replayed without divergence but the real objects do not "
                                      f"show the violation")
     prefix_controls(chk, tl)
+    # the reachability witnesses (two shutdown requests: wait=True blocked, then wait=False) replay cleanly
+    for cfg, (mode, steps) in tl["witness"].items():
+        res = replay_one(chk, xt.cfg_constants(cfg), mode, steps, origin=f"witness of {WITNESS[cfg]} ({cfg})")
+        if res is not None:
+            chk.nontrivial(("witness", cfg))
+            chk.sample({"config": cfg, "reaches": WITNESS[cfg], "schedule": xt.labels(steps)})
     # 2. every schedule with bounded preemptions (sampled down to the budget), 3. random schedules
     n = 0
+    limits = dict(b["pb"])
+    patterns: dict[str, int] = {}
     for tag in ("pb", "sim"):
         for cfg, recs in tl[tag]:
             consts = xt.cfg_constants(cfg)
-            limit = b["pb"][1] if tag == "pb" else len(recs)
+            limit = limits.get(cfg, len(recs))
             recs = sorted(recs, key=lambda r: json.dumps([x["a"] for x in r["hist"]], sort_keys=True))
             chk.cov[f"schedules_available_{cfg}"] = len(recs)
             if len(recs) > limit:
-                recs = rnd.sample(recs, limit)
+                # the patterns of two shutdown requests are always among the sample
+                must, seen_p = [], {}
+                for r in recs:
+                    for pt in two_shutdown_patterns(r):
+                        if seen_p.get(pt, 0) < 2 * PATTERN_MIN:
+                            seen_p[pt] = seen_p.get(pt, 0) + 1
+                            must.append(r)
+                            break
+                ids = {id(r) for r in must}
+                rest = [r for r in recs if id(r) not in ids]
+                recs = must + rnd.sample(rest, max(0, min(len(rest), limit - len(must))))
             for rec in recs:
                 n += 1
+                for pt in two_shutdown_patterns(rec):
+                    patterns[pt] = patterns.get(pt, 0) + 1
                 use_solve = n % b["solve_every"] == 0
                 res = replay_one(chk, consts, rec["init"]["mode"], rec["hist"], origin=f"{cfg}#{_sig(rec['hist'])}",
                                  solve_dir=solve_dir if use_solve else None)
@@ -315,6 +389,10 @@ def replay_phase(chk: Check, tier: str, work: Path, tl: dict):
                 if n % 97 == 1:
                     chk.sample({"config": cfg, "mode": rec["init"]["mode"], "schedule": xt.labels(rec["hist"])})
     chk.cov["schedules_replayed"] = n
+    chk.cov["two_shutdown_patterns_replayed"] = patterns
+    for pt in ("wait-blocked-then-nowait", "nowait-twice", "nowait-then-wait"):
+        if patterns.get(pt, 0) < PATTERN_MIN:
+            raise MachineryError(f"two-shutdown pattern `{pt}` occurs in only {patterns.get(pt, 0)} replayed schedules")
 
 
 # ---------------------------------------------------------------------------------------------
@@ -345,7 +423,17 @@ def negative_controls(chk: Check, tl: dict, work: Path):
         raise MachineryError(f"negative control `{name}` was accepted by the replay")
 
     # baseline: the unmodified schedule is accepted
-    sched.replay_schedule(consts["Jobs"], mode, hist, **kw)
+    try:
+        sched.replay_schedule(consts["Jobs"], mode, hist, **kw)
+    except sched.Divergence as d:
+        # spec and code disagree already on the unmodified schedule (reported by the replay phase as well):
+        # the controls of the binding cannot be evaluated on this tree
+        a2 = (d.label or {}).get("a", "?") if isinstance(d.label, dict) else "?"
+        chk.violation(f"conformance:{d.kind}:{a2}",
+                      f"spec/Executor.tla and processes.py disagree at step {d.step} of the control schedule: {d.detail}",
+                      {"jobs": consts["Jobs"], "has_timeout": consts["HasTimeout"], "ignores_term": consts["IgnoresTerm"],
+                       "mode": mode, "schedule": xt.labels(hist), "steps": hist})
+        return
     cp = lambda: json.loads(json.dumps(hist))  # noqa: E731
     # (a) mutated TLC state: a result that was delivered is not
     h = cp()
@@ -367,8 +455,8 @@ def negative_controls(chk: Check, tl: dict, work: Path):
     h = cp()
     i = len(h) // 2
     want = [list(x) for x in h[i]["en"]]
-    extra_thread = next(t for t in ([k, j] for k in ("can", "wrk", "sub") for j in consts["Jobs"]) if t not in want)
-    h[i]["en"] = want + [extra_thread]
+    extra_thread = next((t for t in ([k, j] for k in ("wrk", "sub") for j in consts["Jobs"]) if t not in want), None)
+    h[i]["en"] = want + [extra_thread] if extra_thread else want[1:]
     expect_div("mutated-enabled-set", h)
     # (e) a wrapper that delivers the result twice
     expect_div("double-delivery-wrapper", cp(), double_delivery=True)
@@ -393,7 +481,9 @@ def trace_phase(chk: Check, runs, work: Path, tier: str):
     from harness import exec_real as xr
     from harness.common import run_tlc
 
-    runs = runs[:TRACE_CAP[tier]]
+    runs = [r for r in runs if not r.counts.get("cancel_aborted_by_unexpected_exception")]
+    two = [r for r in runs if r.scenario["style"].startswith("two:")]
+    runs = two[:6] + [r for r in runs if not r.scenario["style"].startswith("two:")][:TRACE_CAP[tier]]
     traces = [xr.to_trace(r) for r in runs]
     controls = xr.corrupt_traces(traces)
     if len(controls) < 3:
@@ -437,7 +527,8 @@ def real_phase(chk: Check, tier: str, work: Path):
             chk.nontrivial(("real",) + tuple(k))
         for k, v in r.counts.items():
             if k in ("popen_after_shutdown_returned", "accepted_after_shutdown_returned", "shutdown_wait_raised",
-                     "late_submit_rejected", "pre_shutdown_alive"):
+                     "late_submit_rejected", "pre_shutdown_alive", "cancel_aborted_by_unexpected_exception",
+                     "descendant_survivors", "joiner_blocked"):
                 agg[k] = agg.get(k, 0) + v
         for key, what in r.violations:
             chk.violation(f"real:{key}", what, {"scenario": r.scenario, "seen": r.seen, "counts": r.counts,
@@ -519,8 +610,10 @@ def run(chk: Check, tier: str):
         "shutdown overlaps a started job or a timeout/Popen failure/broken pipe occurs; real-subprocess runs and "
         "stub-solver runs count one trace each")
     chk.assumptions += [
-        "one shutdown() call per executor; each job is submitted once, by its own thread, which then waits on it",
-        "a process without time limit eventually exits (fairness of Env_Exit only for jobs with timeout=None)",
+        "at most two shutdown() calls per executor (any pair of wait=True/False, any order, concurrent); each job is "
+        "submitted once, by its own thread, which then waits on it",
+        "a process without time limit eventually exits (fairness of Env_Exit only for jobs with timeout=None), except "
+        "the jobs in NeverExits of the two-shutdown liveness configurations, which only a signal ends",
         "psutil/Popen are modelled at the level of their effect on the job's process (running/exited/killed) and "
         "pipes; process trees and real signals are exercised only in the real-subprocess runs",
         "3-job model: the psutil part of cancel() is one step (CoarseCancel); fine-grained for 1 and 2 jobs",
